@@ -473,6 +473,14 @@ def gen_flags():
     src = open(os.path.join(vlib.COQ, "Gen", "AclConsts.v")).read()
     return {m.group(1): m.group(2) == "true" for m in re.finditer(r"Definition (acl_fix_\w+) : bool := (\w+)\.", src)}
 
+def stable(err):
+    """sanitizer report without process ids, addresses and scratch paths (replay files keep their name from run to run)"""
+    err = re.sub(r"==\d+==", "==PID==", err)
+    err = re.sub(r"0x[0-9a-f]{6,}", "0xADDR", err)
+    err = re.sub(r"/var/tmp/verif-\d+/", "/var/tmp/verif-PID/", err)
+    err = re.sub(r"\(BuildId: [0-9a-f]+\)", "", err)
+    return err
+
 def isolated(rep, exe, case, marker, model_line, counts):
     """a case on which the model predicts a crash / hang / overrun: run it alone"""
     key, what = KEY_OF_MARKER[marker]
@@ -480,10 +488,11 @@ def isolated(rep, exe, case, marker, model_line, counts):
     rc, lines, err = vlib.run_exe(exe, path, timeout=120)
     counts["isolated_runs"] += 1
     if rc != 0 or len(lines) != 1:
+        err = stable(err)
         summ = [l for l in err.split("\n") if "ERROR: " in l or "SUMMARY" in l or "runtime error" in l or "TIMEOUT" in l]
         counts["isolated_crashes"] += 1
         rep.violation(key, "%s [%s]" % (what, "; ".join(summ)[:300] or "rc=%s" % rc),
-                      dict(correspondence="acl", case=case, model=model_line, stderr=err[-2500:],
+                      dict(correspondence="acl", case=case, model=model_line, stderr=err[:2500],
                            cmd="harness acl on the case line"), found_input=True)
     else:
         # the model says this input cannot be handled, the code handled it: the model is wrong here
